@@ -428,7 +428,39 @@ def check_random(rep):
     rep.sample({"trace_record": recs[0]})
 
 
+def _construct_job(which):
+    def job():
+        from bromelia.avps import (ResultCodeAVP, HostIpAddressAVP, RedirectHostAVP, AuthSessionStateAVP, VendorSpecificApplicationIdAVP, VendorIdAVP,
+                                   AuthApplicationIdAVP, EventTimestampAVP, OriginStateIdAVP)
+        from bromelia.base import DiameterAVP
+        out = []
+        cases = [(ResultCodeAVP, 2001), (ResultCodeAVP, b"\x00\x00\x07"), (HostIpAddressAVP, "10.1.2.3"), (HostIpAddressAVP, b"\x00\x03abcd"),
+                 (RedirectHostAVP, "aaa://host.example:3868;transport=tcp"), (RedirectHostAVP, "http://host.example"),
+                 (AuthSessionStateAVP, b"\x00\x00\x00\x01"), (AuthSessionStateAVP, b"\x00\x00\x00\x63"), (OriginStateIdAVP, 7)]
+        if which == "b":
+            cases = cases[::-1] + [(VendorSpecificApplicationIdAVP, [VendorIdAVP(10415), AuthApplicationIdAVP(16777251)]), (VendorSpecificApplicationIdAVP, [VendorIdAVP(10415)])]
+        for cls, arg in cases:
+            try:
+                a = cls(arg)
+                out.append([cls.__name__, "ok", a.dump().hex()])
+                back = DiameterAVP.load(a.dump())
+                out.append([type(back[0]).__name__, back[0].data.hex() if isinstance(back[0].data, bytes) else repr(back[0].data)])
+            except BaseException as e:
+                out.append([cls.__name__, "raised", type(e).__name__])
+        return out
+    return job
+
+
+def purity(rep):
+    """constructors and the decode dispatch from two threads at once"""
+    from engine import concur
+    pairs = [("typed constructors and decode dispatch in both threads", _construct_job("a"), _construct_job("b"))]
+    return concur.purity_stage(rep, "the typed constructors", pairs, ("/bromelia/types.py", "/bromelia/base.py"), kmax=6000,
+                               stride=251 if rep.tier == "quick" else 7, pct=10 if rep.tier == "quick" else 200)
+
+
 def run(rep):
+    purity(rep)
     rep.rule = ("C10a: five dictionary tables (tree, reference, docs, definitions.py, decode dispatch) checked by TLC; C10b: per data type "
                 "~25-60 in/out-of-domain inputs applied to every class of the type, enumerators +-1 around each class's values, URI "
                 "schemes, Grouped mandatory members; T: random values validated by TLC. distinct = distinct (class, input) pairs")
@@ -443,6 +475,10 @@ def run(rep):
 
 def replay(rep, path):
     r = json.load(open(path))["replay"]
+    if r.get("kind") == "purity":
+        purity(rep)
+        rep.sample(r)
+        return rep.finish()
     rep.notes["replay"] = r
     if r["kind"] == "table":
         check_tables(rep)
